@@ -200,11 +200,19 @@ def rand_universe(rng, o=None, uid=0):
                     md['in_header'] = rng.choice(hc)
                 if hc and rng.random() < .3:
                     md['out_header'] = rng.choice(hc)
+                # several headers on one message (a list of class names instead of one name)
+                if getattr(o, 'multi_headers', False) and len(hc) >= 2:
+                    for k in ('in_header', 'out_header'):
+                        if md.get(k) and rng.random() < .4:
+                            md[k] = rng.sample(hc, 2)
                 if rng.random() < .3:
                     md['throws'] = rng.sample(['F0', 'F1'], rng.randint(1, 2))
             if getattr(o, 'custom_names', False) and style == 'wrapped':
-                if rng.random() < .3:
+                r_ = rng.random()
+                if r_ < .3:
                     md['operation_name'] = 'op_%s' % mname
+                elif r_ < .5:
+                    md['in_message_name'] = 'im_%s' % mname       # (mutually exclusive with _operation_name)
                 if rng.random() < .3 and len(rets) > 1:
                     md['out_variable_names'] = ['o%d_%s' % (i, mname) for i in range(len(rets))]
             methods.append(md)
@@ -285,6 +293,8 @@ class Built(object):
         ir = self.ir
         uid = ir['uid']
         for td in ir['types']:
+            if td['name'] in self.classes:
+                continue                    # grow(): declared at an earlier stage
             base = self.classes[td['base']] if td['base'] else ComplexModel
             d = {'__namespace__': td['ns'], '__type_name__': td['name']}
             d['_type_info'] = [(fn, self.spyne_type(ft, field=True)) for fn, ft in td['fields']]
@@ -299,6 +309,15 @@ class Built(object):
                 d[md['name']] = self._make_method(md)
                 self.methods[md['name']] = md
             self.services.append(type(str('%su%d' % (sd['name'], uid)), (Service,), d))
+
+    def grow(self, ir):
+        """declare the types of `ir` that do not exist yet - after the existing classes may already have been used by
+        protocols - and rebuild the services (fresh Service classes) for the extended universe"""
+        self.ir = ir
+        self.typedefs = {t['name']: t for t in ir['types']}
+        self.services = []
+        self.methods = {}
+        self._build()
 
     def _make_method(self, md):
         from spyne import rpc
@@ -325,7 +344,7 @@ class Built(object):
                 kw[k] = md[k[1:]]
         for k in ('_in_header', '_out_header'):
             if md.get(k[1:]) is not None:
-                kw[k] = (self.classes[md[k[1:]]],)      # (the decorator asserts a tuple)
+                kw[k] = tuple(self.classes[n] for n in header_names(md, k[1:]))      # (the decorator asserts a tuple)
         if md.get('throws'):
             kw['_throws'] = [self.faults[f] for f in md['throws']]
         return rpc(*params, **kw)(fn)
@@ -336,25 +355,32 @@ class Built(object):
                            in_protocol=in_protocol, out_protocol=out_protocol)
 
     # -- value conversion
-    def to_spyne(self, t, v):
+    def to_spyne(self, t, v, memo=None):
+        """value tree -> native objects; a sub-tree that occurs twice in the value tree (the same dict object, see
+        gen_value) becomes one instance referenced twice"""
         if v is None:
             return None
+        if memo is None:
+            memo = {}
         if 'ref' in t:
             td = self.typedefs[v.get('__class__', t['ref'])] if isinstance(v, dict) else None
             cls = self.classes[td['name']]
+            if (id(v), td['name']) in memo:
+                return memo[(id(v), td['name'])]
             inst = cls()
+            memo[(id(v), td['name'])] = inst
             for fn, ft in self.all_fields(td['name']):
                 if fn in v:
-                    setattr(inst, fn, self.to_spyne(ft, v[fn]))
+                    setattr(inst, fn, self.to_spyne(ft, v[fn], memo))
             return inst
         if 'array' in t:
-            return [self.to_spyne(t['array'], x) for x in v]
+            return [self.to_spyne(t['array'], x, memo) for x in v]
         if 'seq' in t:
-            return [self.to_spyne(t['seq'], x) for x in v]
+            return [self.to_spyne(t['seq'], x, memo) for x in v]
         if 'attr' in t:
-            return self.to_spyne(t['attr'], v)
+            return self.to_spyne(t['attr'], v, memo)
         if 'xmldata' in t:
-            return self.to_spyne(t['xmldata'], v)
+            return self.to_spyne(t['xmldata'], v, memo)
         if 'prim' in t and t['prim'] == 'ByteArray':
             return chunked(v) if isinstance(v, bytes) else list(v)
         return v
@@ -400,6 +426,11 @@ class Built(object):
         td = self.typedefs[tname]
         out = list(self.all_fields(td['base'])) if td['base'] else []
         return out + [(fn, ft) for fn, ft in td['fields']]
+
+
+def header_names(md, which):
+    h = md.get(which)
+    return [] if not h else [h] if isinstance(h, str) else list(h)
 
 
 def chunked(v):
@@ -539,10 +570,16 @@ def gen_value(rng, ir, t, depth=3, top=False, alphabet='xml', subclass_ok=False)
             subs = [x['name'] for x in ir['types'] if _is_sub(ir, x['name'], name)]
             name = rng.choice(subs)
         out = {'__class__': name}
+        prev = {}
         for fn, ft in all_fields(ir, name):
             v = gen_value(rng, ir, ft, depth - 1, alphabet=alphabet)
             if v is not None:
+                # aliasing: two members of the same declared class may refer to one and the same object
+                if 'ref' in ft and not subclass_ok and ft['ref'] in prev and rng.random() < .3:
+                    v = prev[ft['ref']]
                 out[fn] = v
+                if 'ref' in ft:
+                    prev.setdefault(ft['ref'], v)
         return out
     if 'array' in t:
         n = rng.choice((0, 1, 2, 3, 5))
@@ -553,6 +590,8 @@ def gen_value(rng, ir, t, depth=3, top=False, alphabet='xml', subclass_ok=False)
             if v is None:
                 return out
             out.append(v)
+        if out and 'ref' in inner and rng.random() < .25:
+            out.append(out[0])          # the same object twice in one array (not a cycle)
         return out
     if 'seq' in t:
         mx = 5 if t['max'] == 'unbounded' else t['max']
@@ -563,6 +602,8 @@ def gen_value(rng, ir, t, depth=3, top=False, alphabet='xml', subclass_ok=False)
             if v is None:
                 break
             out.append(v)
+        if out and 'ref' in t['seq'] and len(out) < mx and rng.random() < .25:
+            out.append(out[0])
         return out
     if 'attr' in t:
         return gen_value(rng, ir, t['attr'], depth, alphabet=alphabet)
